@@ -23,6 +23,8 @@ impl RngCore for ConstRng {
 pub enum AgentCase {
     /// cancel_live_orders with probability p on n active orders, generator output fixed to `draw`
     CancelProb { p: f32, n_orders: usize, draw: u32 },
+    /// cancel_live_orders with p_cancel >= 1 on a list that MIXES finished (cancelled / filled) and active orders, in every arrangement of `pattern` (bit k set = order k is finished)
+    CancelMixed { pattern: u32, n_orders: usize, draw: u32, market: bool },
     /// noise agents: tick, sigma, n traders, steps, seed  (checks grid, volumes, trader ids, quoting side of the mid, no abort)
     Noise { tick: u32, sigma: f64, p_limit: f32, p_market: f32, p_cancel: f32, n: u16, steps: u32, seed: u64 },
     /// momentum agents with harness-controlled quotes: path of (bid, ask); saturated demand
@@ -107,6 +109,52 @@ fn run_case_inner(c: &AgentCase) -> Vec<Failure> {
             }
             if live.len() + cancelled != *n_orders {
                 out.push(fail("C16.cancel_rules", "kept + cancelled != listed active orders".into()));
+            }
+        }
+        AgentCase::CancelMixed { pattern, n_orders, draw, market } => {
+            let mut rng = Xoroshiro128StarStar::seed_from_u64(1);
+            if !*market {
+                let mut env: Env = Env::new(0, 1, 1000, true);
+                let ids: Vec<usize> = (0..*n_orders).map(|k| env.place_order(Side::Bid, 5, 1, Some(10 + k as u32)).unwrap()).collect();
+                env.step(&mut rng);
+                for k in 0..*n_orders { if pattern >> k & 1 == 1 { env.cancel_order(ids[k]); } }
+                env.step(&mut rng);
+                let q0 = env.verif_transactions().len();
+                let kept = cancel_live_orders(&mut env, &mut ConstRng(*draw), &ids, 1.0);
+                for k in 0..*n_orders {
+                    let hit = env.verif_transactions()[q0..].iter().any(|ev| matches!(ev, Event::Cancellation { order_id } if *order_id == ids[k]));
+                    let finished = pattern >> k & 1 == 1;
+                    if !finished && !hit {
+                        out.push(fail("C16.certain_probability_always", format!("p_cancel = 1, orders {:?} with finished pattern {:b}: the active order {} was not cancelled", ids, pattern, ids[k])));
+                    }
+                    if finished && hit {
+                        out.push(fail("C16.cancel_only_active", format!("orders {:?} with finished pattern {:b}: a cancellation was queued for the finished order {}", ids, pattern, ids[k])));
+                    }
+                }
+                if !kept.is_empty() {
+                    out.push(fail("C16.cancel_rules", format!("p_cancel = 1 but {:?} are handed back as still live (finished pattern {:b})", kept, pattern)));
+                }
+            } else {
+                let mut env: MarketEnv<2, 3> = MarketEnv::new(0, [1, 1], 1000, true);
+                let ids: Vec<(usize, usize)> = (0..*n_orders).map(|k| env.place_order(1, Side::Bid, 5, 1, Some(10 + k as u32)).unwrap()).collect();
+                env.step(&mut rng);
+                for k in 0..*n_orders { if pattern >> k & 1 == 1 { env.cancel_order(ids[k]); } }
+                env.step(&mut rng);
+                let q0 = env.verif_transactions().len();
+                let kept = bourse_de::agents::common::cancel_live_orders_market(&mut env, &mut ConstRng(*draw), &ids, 1.0);
+                for k in 0..*n_orders {
+                    let hit = env.verif_transactions()[q0..].iter().any(|ev| matches!(ev, Event::Cancellation { order_id } if *order_id == ids[k]));
+                    let finished = pattern >> k & 1 == 1;
+                    if !finished && !hit {
+                        out.push(fail("C16.certain_probability_always", format!("multi-asset, p_cancel = 1, finished pattern {:b}: the active order {:?} was not cancelled", pattern, ids[k])));
+                    }
+                    if finished && hit {
+                        out.push(fail("C16.cancel_only_active", format!("multi-asset, finished pattern {:b}: a cancellation was queued for the finished order {:?}", pattern, ids[k])));
+                    }
+                }
+                if !kept.is_empty() {
+                    out.push(fail("C16.cancel_rules", format!("multi-asset: p_cancel = 1 but {:?} are handed back as still live (finished pattern {:b})", kept, pattern)));
+                }
             }
         }
         AgentCase::Noise { tick, sigma, p_limit, p_market, p_cancel, n, steps, seed } => {
@@ -215,10 +263,12 @@ fn run_case_inner(c: &AgentCase) -> Vec<Failure> {
                 // limit orders: probability order_ratio * |demand * tanh(scale * M)| / n - certain at saturation when the ratio is at least 1, on the side of the signal
                 let limits: Vec<&Order> = new.iter().filter(|o| !((is_bid(o.side) && o.price == u32::MAX) || (!is_bid(o.side) && o.price == 0))).collect();
                 let (lb, ls) = (limits.iter().filter(|o| is_bid(o.side)).count(), limits.iter().filter(|o| !is_bid(o.side)).count());
-                if saturated && *order_ratio >= 1.0 && m > 0.0 && (lb != *n as usize || ls != 0) {
+                // certain when order_ratio * |demand * tanh(scale * M)| / n >= 1; |tanh| > 0.999 once |scale * M| >= 4
+                let limit_certain = saturated && *order_ratio * *demand * 0.999 / f64::from(*n) >= 1.0;
+                if limit_certain && m > 0.0 && (lb != *n as usize || ls != 0) {
                     out.push(fail("C17.limit_buys_when_rising", format!("step {}: M = {} > 0, order ratio {} but limit orders (buys, sells) = ({}, {}) from {} traders", k, m, order_ratio, lb, ls, n)));
                 }
-                if saturated && *order_ratio >= 1.0 && m < 0.0 && (ls != *n as usize || lb != 0) {
+                if limit_certain && m < 0.0 && (ls != *n as usize || lb != 0) {
                     out.push(fail("C17.limit_sells_when_falling", format!("step {}: M = {} < 0, order ratio {} but limit orders (buys, sells) = ({}, {}) from {} traders", k, m, order_ratio, lb, ls, n)));
                 }
                 if *order_ratio == 0.0 && !limits.is_empty() {
@@ -435,6 +485,10 @@ pub fn search_agents(prop: &str, seed: u64) -> Option<(AgentCase, Vec<Failure>)>
                 cases.push(AgentCase::Noise { tick, sigma, p_limit: pl, p_market: pm, p_cancel: 0.1, n: 5, steps: 40, seed });
             }
         }
+        for pattern in 0..32u32 {
+            cases.push(AgentCase::CancelMixed { pattern, n_orders: 5, draw: 0x8000_0000, market: pattern % 2 == 1 });
+        }
+        cases.push(AgentCase::Noise { tick: 1, sigma: 1.0, p_limit: 1.0, p_market: 0.6, p_cancel: 1.0, n: 6, steps: 40, seed });
         cases.push(AgentCase::Noise { tick: 2, sigma: 1.0, p_limit: 1.0, p_market: 0.0, p_cancel: 1.0, n: 4, steps: 30, seed });
         cases.push(AgentCase::Noise { tick: 1, sigma: 1.0, p_limit: 0.7, p_market: 0.2, p_cancel: 0.0, n: 4, steps: 30, seed });
         for tick in [1u32, 2, 3, 7, 10] {
@@ -466,6 +520,9 @@ pub fn search_agents(prop: &str, seed: u64) -> Option<(AgentCase, Vec<Failure>)>
         cases.push(AgentCase::Momentum { path: vec![(1000, 1002), (1032, 1034), (1028, 1030), (1028, 1030), (1000, 1002)], n: 2, decay: 0.5, order_ratio: 1.0, seed, demand: 1.0e6 });
         cases.push(AgentCase::Momentum { path: vec![(1000, 1002), (968, 970), (972, 974), (972, 974), (1000, 1002)], n: 2, decay: 0.5, order_ratio: 1.0, seed, demand: 1.0e6 });
         cases.push(AgentCase::Momentum { path: vec![(1000, 1002), (968, 970), (972, 974), (990, 992)], n: 3, decay: 0.5, order_ratio: 2.0, seed: seed + 2, demand: 1.0e6 });
+        // an order ratio below 1 with demand far above the number of traders: the limit-order propensity order_ratio * |demand * tanh| / n is still >= 1, in both directions
+        cases.push(AgentCase::Momentum { path: vec![(1000, 1002), (1032, 1034), (1000, 1002), (1040, 1042), (990, 992)], n: 4, decay: 1.0, order_ratio: 0.25, seed, demand: 1.0e6 });
+        cases.push(AgentCase::Momentum { path: vec![(1000, 1002), (968, 970), (1000, 1002), (960, 962), (1010, 1012)], n: 3, decay: 1.0, order_ratio: 0.5, seed: seed + 3, demand: 64.0 });
         for (n, market, tick) in [(3u16, false, 1u32), (5, true, 2), (2, false, 5), (4, true, 1)] {
             cases.push(AgentCase::MomentumQuiet { n, seed, market, tick });
         }
